@@ -39,9 +39,83 @@ def s1_program(src, shape, program_len, max_faults, race=False):
     src.note({"stop_exc": repr(res.get("stop_exc")), "tasks_left": len(res.get("tasks_left") or [])})
 
 
+def s2_two_brokers(src):
+    """partitions on two brokers, the application blocked in getone(): a record arriving on either partition is
+    handed out promptly whatever the other broker answers at the same moment (empty long poll, error, nothing)"""
+    import asyncio
+    import aiokafka.errors as E
+    from aiokafka.structs import TopicPartition
+    from env import simkafka, vloop
+    from . import grouporacles as GO
+    which = src.choice("record_arrives_on_partition", 2)
+    delay = [0.0, 0.03, 0.08, 0.12, 0.17, 0.26][src.choice("arrival_delay", 6)]
+    other = ["empty_long_poll", "error_reply", "second_record_later"][src.choice("other_broker", 3)]
+    style = ["getone", "async_for"][src.choice("style", 2)]
+    cluster = simkafka.Cluster(nodes=(0, 1), topics={"t": 2})
+    cluster.tick = [None, 0.002][src.choice("replies_delivered_in_bursts", 2)]
+    res = {}
+
+    def fault_fn(c, node, req, entry):
+        if other == "error_reply" and req.API_KEY == 1 and node == cluster.leader[("t", 1 - which)] and not res.get("fault_used") and res.get("armed"):
+            res["fault_used"] = True
+            return ("error", 6)
+        return None
+    cluster.fault_fn = fault_fn
+
+    async def main(loop):
+        with simkafka.installed(cluster):
+            c = AIOKafkaConsumer(bootstrap_servers="h0:9092", group_id=None, enable_auto_commit=False, auto_offset_reset="earliest",
+                                 fetch_max_wait_ms=100, request_timeout_ms=1000, retry_backoff_ms=50)
+            await c.start()
+            c.assign([TopicPartition("t", 0), TopicPartition("t", 1)])
+            res["armed"] = True
+
+            async def take():
+                if style == "getone":
+                    return await c.getone()
+                async for r in c:
+                    return r
+            t = asyncio.ensure_future(take())
+            await asyncio.sleep(delay)
+            GO.append_record(cluster, ("t", which))
+            t_app = loop.time()
+            if other == "second_record_later":
+                loop.call_later(0.1, GO.append_record, cluster, ("t", 1 - which))
+            try:
+                r = await asyncio.wait_for(t, timeout=2.0)
+                res["got"] = (r.partition, r.offset, round(loop.time() - t_app, 3))
+            except asyncio.TimeoutError:
+                res["got"] = None
+            except E.KafkaError as e:
+                res["exc"] = repr(e)
+            res["buffered"] = sorted(str(k) for k in c._fetcher._records) if hasattr(c._fetcher, "_records") else None
+            try:
+                await asyncio.wait_for(c.stop(), timeout=10)
+            except (asyncio.TimeoutError, asyncio.CancelledError, Exception):  # noqa: BLE001
+                pass
+
+    try:
+        vloop.run(main, max_vtime=120)
+    except vloop.Deadlock as e:
+        res["deadlock"] = str(e)
+    info = dict(partition=which, arrival_delay=delay, other_broker=other, style=style, bursts=cluster.tick, observed=str({k: v for k, v in res.items() if k != "armed"}))
+    src.note(info)
+    src.check("deadlock" not in res, "consumer run did not finish: " + str(res.get("deadlock")), **info)
+    src.check("exc" not in res, "an error was raised to the application: " + str(res.get("exc")), **info)
+    ok = res.get("got") is not None and res["got"][:2] == (which, 0)
+    if src.twin:
+        ok = not ok
+    src.check(ok, "a visible record was not handed to the blocked caller within 2 s of its arrival (no fault is active any more)", **info)
+
+
 def harnesses(tier):
     q = tier == "quick"
-    hs = []
+    hs = [Harness(
+        name="S2_two_brokers_blocked_caller", fn=s2_two_brokers,
+        functions=[Fetcher._fetch_requests_routine, Fetcher.next_record, Fetcher.fetched_records], shape="S",
+        symbolic_vars="choices: which of two partitions (on two brokers) receives the record, when, what the other broker answers meanwhile, getone() or async-for",
+        bounds={"partitions": 2, "brokers": 2, "records": "1..2"},
+        stubs=["SimConn broker model", "virtual-time loop"], max_seconds=300, twin_max_paths=200)]
     for nb in ([1, 2] if q else [1, 2, 3]):
         hs.append(Harness(
             name=f"U1_unpack_{nb}batches", fn=u1_unpack, params={"nbatches": nb},
@@ -52,7 +126,7 @@ def harnesses(tier):
             bounds={"batches": nb, "records_per_batch": "0..2"},
             assumptions=["batch ranges increase; fetch offset inside the first batch (see C08 for the transactional assumptions)"],
             stubs=["record batches replaced by stub objects"], max_seconds=300))
-    shapes = ["v2_plain", "v2_compaction", "v2_control", "v1_mixed", "v0_wrapper", "txn_mixed", "txn_open", "gz_v2"]
+    shapes = ["v2_plain", "v2_compaction", "v2_control", "v1_mixed", "v0_wrapper", "txn_mixed", "txn_open", "gz_v2", "legacy_null_records"]
     if q:
         confs = [(s, 2, 0) for s in shapes] + [("v2_compaction", 2, 1), ("v1_mixed", 2, 1)]
     else:
